@@ -96,6 +96,9 @@ def _render(doc, set_perm=None):
                 v = getattr(m, attr)
                 if v is not None:
                     object.__setattr__(m, attr, PermSet(v, set_perm))
+            ap = m.additional_properties
+            if ap is not None and getattr(ap, "lazy_imports", None) and not isinstance(ap.lazy_imports, PermSet):
+                object.__setattr__(ap, "lazy_imports", PermSet(ap.lazy_imports, set_perm))
         out[f"models/{m.class_info.module_name}.py"] = MT.render(model=m)
     for tag, coll in data.endpoint_collections_by_tag.items():
         for ep in coll.endpoints:
